@@ -55,6 +55,10 @@ def scenario(draw) -> Dict[str, Any]:
         'pre': draw(st.sampled_from([None, None, 1, 1, 2])) if inj is not None and inj['off'] >= -1000 else None,
         # the ServiceInfo object was registered and unregistered on this instance once before (only when B exists before the owner)
         'prior': draw(st.sampled_from([False, False, True])),
+        # a peer asks for the SRV record of every candidate name and for the address records of the newcomer's host, in one packet, at
+        # these offsets from the start of the registration (i.e. while it probes or announces): the answers must not disturb what
+        # the announcements carry, and nothing may be answered for a name that was given up
+        'ask': draw(st.sampled_from([None, None, [400], [400, 925], [360, 600, 925, 1450, 1975], [500, 700]])),
     }
 
 
@@ -161,6 +165,9 @@ class Exec:
                 w.net.inject(b, data, ('10.0.0.9', 5353))
             else:
                 w.loop.call_at(when / 1000.0, w.net.inject, b, data, ('10.0.0.9', 5353))
+        for off in case.get('ask') or []:
+            qd = [(cand(n), 33, True) for n in (1, 2, 3)] + [('newcomer.local.', 1, True), ('newcomer.local.', 28, False)]
+            w.loop.call_at((T + off) / 1000.0, w.net.inject, b, rp.build_query(qd, [], qid=0), ('10.0.0.9', 5353))
         # pre-existing knowledge at T
         now = w.now_ms
         for alias in list(self.learn):
@@ -358,6 +365,8 @@ def check(case: Dict[str, Any]) -> Dict[str, Any]:
         classes.append('registered-twice')
     if case['b_first'] and case.get('prior'):
         classes.append('same-object-registered-before')
+    if case.get('ask'):
+        classes.append('peer-asks-for-srv-and-addresses-during-the-registration')
     if case['b_first']:
         classes.append('prepopulated-cache')
     return {'nontrivial': between or len(chain) >= 3, 'classes': classes, 'max': {'chain': len(chain)}, 'sample': {'case': case, 'outcome': det}}
